@@ -220,6 +220,8 @@ def run_concurrent(sim, specs, chooser, shared_prefixes=()):
             O.chdir('/')
     if sch.error:
         raise HarnessError(sch.error)
+    if K.bypass:
+        raise HarnessError('call(s) bypassed the seam: %r' % (K.bypass[:5],))
     if threading.active_count() != 1:
         raise HarnessError('simulated process threads still alive: %r' % threading.enumerate())
     results = []
